@@ -69,7 +69,7 @@ CLAIMS = {
    tech="constant-table check of per-width integer bounds through go/types constants + must-facts dominance of exactness and range tests over reflect setters",
    text="Decides: the bounds for 8/16/32/64-bit signed and unsigned targets are exactly the type's range with a panicking residual; SetInt/SetUint are dominated by big.Exact and by the comparisons with both bounds; SetFloat is protected by an infinity test conditioned on nothing but inexactness and by a float32 range test; unknown values are rejected before the kind dispatch.",
    note="Not decided: exact round trip for all Go values; freedom from reflect panics (no model of reflect); math/big's own Uint64 accuracy report for fractions (trusted as documented). "),
- "C17": dict(rules=["C17.error-checked","C17.result-depends-on-type","C17.length-taint","C17.partial-constructors","C17.object-completion","C17.path-arithmetic"],
+ "C17": dict(rules=["C17.error-checked","C17.result-depends-on-type","C17.length-taint","C17.partial-constructors","C17.object-completion","C17.path-arithmetic","C11.float-nan"],
    tech="taint tracking of input-supplied lengths to allocation sizes over go/ssa (dominating bound checks as sanitisers) + forward may-analysis of unread errors over go/cfg + data/control dependence of successful returns on the requested type + guard dominance for panicking constructors",
    text="Decides, for every function reachable from the five decoder entry points: no length read from the input sizes an allocation without a dominating bound; no error variable is overwritten or dropped unread; every successful return of a type-directed decoder depends on the requested type; ListVal/SetVal/MapVal are dominated by the Can*Val test, ObjectWithOptionalAttrs by a validation of the optional names, refinement-builder replays by a recovering defer; structural values are returned only after the member count was compared with the type (distinct members for by-name decoding) or completed from it. Path trimming/indexing by len-1 happens only on a path that was extended by append on the way.",
    note="Not decided: panics needing value ranges inside the third-party JSON/msgpack tokenizers, stack depth on deeply nested input, the exact memory multiple. "),
